@@ -445,7 +445,7 @@ func runPersistCase(c pcase) presult {
 	}
 	// a forced step that does not complete means the model no longer describes the code (drift);
 	// once that has happened a few times in this batch, stop paying the full wait for it
-	stepWait := 2 * time.Second
+	stepWait := 10 * time.Second
 	if atomic.LoadInt64(&stallCount) >= 16 {
 		stepWait = 25 * time.Millisecond
 	}
